@@ -228,6 +228,9 @@ type Xmd = ExpandMsgXmd<sha2::Sha256>;
 type Xof = ExpandMsgXof<sha3::Shake128>;
 type YXmd = ExpandMsgXmd<YSha256>;
 type YXof = ExpandMsgXof<YShake128>;
+/// digests with another block size (128 bytes) than SHA-256's
+type Xmd512 = ExpandMsgXmd<sha2::Sha512>;
+type Xmd384 = ExpandMsgXmd<sha2::Sha384>;
 
 impl Grp for G1 {
     const ID: u8 = 1;
@@ -389,6 +392,31 @@ pub struct YScalar(pub [u64; 4]);
 impl From<YScalar> for FrRepr {
     fn from(s: YScalar) -> FrRepr {
         yield_here(tok::Y_INTO, "Into<FrRepr>::into");
+        FrRepr(s.0)
+    }
+}
+/// a scalar whose conversion itself uses the library on the same thread before it returns (a lazily
+/// evaluated challenge derived from a commitment): table-driven, plain and wNAF multiplications of
+/// other bases in both groups
+pub struct ReenterScalar(pub [u64; 4]);
+impl From<ReenterScalar> for FrRepr {
+    fn from(s: ReenterScalar) -> FrRepr {
+        let k = FrRepr([s.0[0] | 1, s.0[1], 0x5a5a, 0]);
+        let mut t1 = vec![G1Affine::zero(); 3];
+        let b1 = G1Affine::one();
+        b1.precomp_3(&mut t1);
+        let x1 = b1.mul_precomp_3(k, &t1);
+        let mut t2 = vec![G2Affine::zero(); 3];
+        let b2 = G2Affine::one();
+        b2.precomp_3(&mut t2);
+        let x2 = b2.mul_precomp_3(k, &t2);
+        let mut y1 = G1::one();
+        y1.mul_assign(k);
+        let mut w = Wnaf::new();
+        let z2 = w.scalar(k).base(G2::one());
+        let mut y2 = G2::one();
+        y2.mul_assign(k);
+        assert!(x1 == y1 && x2 == y2 && z2 == y2, "a nested multiplication inside Into<FrRepr> returned a wrong point");
         FrRepr(s.0)
     }
 }
@@ -899,6 +927,23 @@ where
                 img_proj(&r, out);
                 claim(claims, p, a(1), &r, "mul_precomp_3");
             }
+        }
+        "mul_re" => {
+            // the scalar's conversion re-enters the library (ReenterScalar): every path that takes Into<FrRepr>
+            let p = a(0) % G::nsub();
+            let k = lt255_index(a(1));
+            let r: G = match a(2) % 4 {
+                0 if !sh_t3[p].is_empty() => G::aff(p).mul_precomp_3(ReenterScalar(scalar(k)), &sh_t3[p]),
+                1 if !sh_t256.is_empty() => G::aff(p).mul_precomp_256(ReenterScalar(scalar(k)), &sh_t256[p]),
+                2 => G::aff(p).mul(ReenterScalar(scalar(k))),
+                _ => {
+                    let mut t = G::proj(p);
+                    t.mul_assign(ReenterScalar(scalar(k)));
+                    t
+                }
+            };
+            img_proj(&r, out);
+            claim(claims, p, k, &r, "multiplication whose scalar conversion re-enters the library");
         }
         "pre3_reuse" => {
             let p = a(0) % G::nsub();
@@ -1451,7 +1496,11 @@ pub fn eval<'a>(op: &Op, sh: &Shared, rs: &RunShared, tl: &mut ThreadObjs<'a>) -
                 (&p.msgs[a(2) % p.msgs.len()][..], &p.dsts[a(3) % p.dsts.len()][..])
             };
             let cnt = 1 + a(4) % 3;
-            match (a(0) % 4, a(1) % 2) {
+            match (a(0) % 6, a(1) % 2) {
+                (4, 0) => hash_to_field::<Fq, Xmd512>(m, d, cnt).iter().for_each(|x| x.img(&mut out)),
+                (4, _) => hash_to_field::<Fq2, Xmd512>(m, d, cnt).iter().for_each(|x| x.img(&mut out)),
+                (5, 0) => hash_to_field::<Fr, Xmd384>(m, d, cnt).iter().for_each(|x| x.img(&mut out)),
+                (5, _) => hash_to_field::<Fq2, Xmd384>(m, d, cnt).iter().for_each(|x| x.img(&mut out)),
                 (0, 0) => hash_to_field::<Fq, Xmd>(m, d, cnt).iter().for_each(|x| x.img(&mut out)),
                 (0, _) => hash_to_field::<Fq2, Xmd>(m, d, cnt).iter().for_each(|x| x.img(&mut out)),
                 (1, 0) => hash_to_field::<Fq, Xof>(m, d, cnt).iter().for_each(|x| x.img(&mut out)),
